@@ -134,3 +134,105 @@ RECIPES = [
      "            mm.ext_x[:, 1] = mm.ext_x[:, 0]\n            extrema(curext=res, mm=mm, maxcase=case)\n            first = res.ext is None\n",
      "`first` re-read after a keyword call of extrema()"),
 ]
+
+# ---- third hardening pass: maxmin decided per row world (c16_rows), loops over the selected rows in other forms, select for masked store,
+#      match statements
+_MM = ("    jx = np.nanargmax(response, axis=1)\n    jn = np.nanargmin(response, axis=1)\n    ind = np.arange(r)\n    mx = response[ind, jx]\n"
+       "    mn = response[ind, jn]\n    return SimpleNamespace(\n        ext=np.column_stack((mx, mn)), ext_x=np.column_stack((x[jx], x[jn]))\n    )\n")
+_MM_TAIL = ("    jx = np.nanargmax(response, axis=1)\n    jn = np.nanargmin(response, axis=1)\n    ind = np.arange(r)\n"
+            "    ext = np.column_stack((response[ind, jx], response[ind, jn]))\n    ext_x = np.column_stack((x[jx], x[jn]))\n"
+            "    if skip.any():\n        ext[skip] = np.nan\n        ext_x = ext_x.astype(float)\n        ext_x[skip] = np.nan\n"
+            "    return SimpleNamespace(ext=ext, ext_x=ext_x)\n")
+
+
+def _tolerant(mask, tail=_MM_TAIL):
+    """maxmin with the feature of seed H: rows selected by `mask` are zero-filled before the argmax and get NaN afterwards"""
+    return f"    skip = {mask}\n    if skip.any():\n        response = np.where(skip[:, None], 0.0, response)\n" + tail
+
+
+_MM_COPY = ("    skip = np.isnan(response).all(axis=1)\n    filled = response.copy()\n    filled[skip] = 0.0\n    jx = np.nanargmax(filled, axis=1)\n"
+            "    jn = np.nanargmin(filled, axis=1)\n    ind = np.arange(r)\n    mx = response[ind, jx]\n    mn = response[ind, jn]\n"
+            "    ext_x = np.column_stack((x[jx], x[jn])).astype(float)\n    ext_x[skip] = np.nan\n"
+            "    return SimpleNamespace(ext=np.column_stack((mx, mn)), ext_x=ext_x)\n")
+_MM_WHERE = ("    skip = np.isnan(response).all(axis=1)\n    safe = np.where(skip[:, np.newaxis], 0.0, response)\n    jx = np.nanargmax(safe, axis=1)\n"
+             "    jn = np.nanargmin(safe, axis=1)\n    ind = np.arange(r)\n    mx = np.where(skip, np.nan, safe[ind, jx])\n"
+             "    mn = np.where(skip, np.nan, safe[ind, jn])\n    xx = np.where(skip, np.nan, x[jx])\n    xn = np.where(skip, np.nan, x[jn])\n"
+             "    return SimpleNamespace(ext=np.column_stack((mx, mn)), ext_x=np.column_stack((xx, xn)))\n")
+_MM_NANMAX = ("    import warnings\n\n    with warnings.catch_warnings():\n        warnings.simplefilter(\"ignore\")\n"
+              "        skip = np.isnan(np.nanmax(response, axis=1))\n    safe = np.where(skip[:, None], 0.0, response)\n"
+              "    jx = np.nanargmax(safe, axis=1)\n    jn = np.nanargmin(safe, axis=1)\n    ind = np.arange(r)\n"
+              "    ext = np.column_stack((response[ind, jx], response[ind, jn]))\n    ext_x = np.column_stack((x[jx], x[jn])).astype(float)\n"
+              "    ext_x[skip, :] = np.nan\n    return SimpleNamespace(ext=ext, ext_x=ext_x)\n")
+_MM_FAST = ("    if not np.isnan(response).any():\n        jx = np.argmax(response, axis=1)\n        jn = np.argmin(response, axis=1)\n    else:\n"
+            "        jx = np.nanargmax(response, axis=1)\n        jn = np.nanargmin(response, axis=1)\n    ind = np.arange(r)\n    mx = response[ind, jx]\n"
+            "    mn = response[ind, jn]\n    return SimpleNamespace(\n        ext=np.column_stack((mx, mn)), ext_x=np.column_stack((x[jx], x[jn]))\n    )\n")
+_BLK1 = ("        j = nan_argmax(abs(curext.ext[:, 0]), abs(mm.ext[:, 0])).nonzero()[0]\n        if j.size > 0:\n            for i in j:\n"
+         "                curext.maxcase[i] = maxcase[i]\n")
+_BLK2MAX = ("    j = nan_argmax(curext.ext[:, 0], mm.ext[:, 0]).nonzero()[0]\n    if j.size > 0:\n        for i in j:\n            curext.maxcase[i] = maxcase[i]\n"
+            "        curext.ext[j, 0] = mm.ext[j, 0]\n        _put_time(curext, mm, j, 0, 0)\n")
+_BLK2MIN_LOOP = "        for i in j:\n            curext.mincase[i] = mincase[i]\n"
+_ENV = ("            if first:\n                res.srs.ext[q] = srs_cur\n            else:\n                res.srs.ext[q] = np.fmax(res.srs.ext[q], srs_cur)\n")
+
+RECIPES += [
+    # maxmin: rows without a valid sample carried through as NaN (the feature of seed H) - the mask must be false for every row that has one
+    ("C16", "break", ["C16-R2"], U, _MM, _tolerant("~np.isfinite(response).all(axis=1)"), "`~isfinite(R).all(axis=1)` is 'some sample not finite' (seed H)"),
+    ("C16", "break", ["C16-R2"], U, _MM, _tolerant("np.isnan(response).any(axis=1)"), "rows with any NaN are carried through as NaN"),
+    ("C16", "break", ["C16-R2"], U, _MM, _tolerant("np.isnan(response).sum(axis=1) > 0"), "NaN count > 0 instead of == number of columns"),
+    ("C16", "break", ["C16-R2"], U, _MM, _tolerant("np.isnan(response).all(axis=1)").replace("ext[skip] = np.nan", "ext[~skip] = np.nan"),
+     "right mask, but the rows that are kept get the NaN"),
+    ("C16", "break", ["C16-R2"], U, _MM, _MM_COPY.replace("np.isnan(response).all(axis=1)", "~np.isfinite(response).all(axis=1)"),
+     "zero-filled copy for the argmax under the mask of seed H"),
+    ("C16", "break", ["C16-R2"], U, _MM, _MM_WHERE.replace("mn = np.where(skip, np.nan, safe[ind, jn])", "mn = np.where(~skip, np.nan, safe[ind, jn])"),
+     "np.where with the arms the wrong way round for the minimum"),
+    ("C16", "break", ["C16-R2"], U, _MM, _MM_NANMAX.replace("np.nanmax(response, axis=1)", "np.max(response, axis=1)"),
+     "mask from a maximum that is not NaN-aware"),
+    ("C16", "break", ["C16-R2"], U, _MM, _MM_FAST.replace("if not np.isnan(response).any():", "if np.isnan(response).any():"),
+     "plain argmax on the path that has NaNs"),
+    ("C16", "break", ["C16-R2"], U, "    mx = response[ind, jx]\n", "    mx = response.max(axis=1)\n", "row maximum that propagates NaN"),
+    ("C16", "neutral", [], U, _MM, _tolerant("np.isnan(response).all(axis=1)"), "all-NaN rows carried through as NaN (correct mask)"),
+    ("C16", "neutral", [], U, _MM, _tolerant("~np.isfinite(response).any(axis=1)"), "same, `not any finite`"),
+    ("C16", "neutral", [], U, _MM, _tolerant("np.count_nonzero(response == response, axis=1) == 0"), "same, count of non-NaN samples is zero"),
+    ("C16", "neutral", [], U, _MM, _tolerant("np.isnan(response).sum(axis=1) == c"), "same, NaN count equals the number of columns"),
+    ("C16", "neutral", [], U, _MM, _MM_COPY, "zero-filled private copy only for the argmax, values read from the caller's matrix"),
+    ("C16", "neutral", [], U, _MM, _MM_WHERE, "np.where on the inputs and on the four result vectors"),
+    ("C16", "neutral", [], U, _MM, _MM_NANMAX, "mask derived from the NaN-aware row maximum"),
+    ("C16", "neutral", [], U, _MM, _MM_FAST, "plain argmax only on the path where the matrix has no NaN"),
+    ("C16", "neutral", [], U, _MM,
+     "    jx = np.nanargmax(response, axis=-1)\n    jn = np.nanargmin(response, axis=-1)\n    ind = range(r)\n    tables = dict(\n"
+     "        ext=np.column_stack((response[ind, jx], response[ind, jn])),\n        ext_x=np.column_stack((np.take(x, jx), x.take(jn))),\n    )\n"
+     "    return SimpleNamespace(**tables)\n", "axis=-1, range for arange, np.take / .take, namespace from a dict"),
+    ("C16", "neutral", [], U, _MM,
+     "    jx = np.nanargmax(response, axis=1)\n    jn = np.nanargmin(response, axis=1)\n    mx = np.take_along_axis(response, jx[:, None], axis=1)[:, 0]\n"
+     "    mn = np.take_along_axis(response, jn[:, None], axis=1)[:, 0]\n    return SimpleNamespace(ext=np.c_[mx, mn], ext_x=np.c_[x[jx], x[jn]])\n",
+     "take_along_axis, np.c_"),
+    # loops over the selected rows
+    ("C16", "neutral", [], U, _BLK1, _BLK1.replace("for i in j:", "for i in j.tolist():"), "loop over j.tolist() (N12)"),
+    ("C16", "neutral", [], U, _BLK1, _BLK1.replace("            for i in j:\n", "            for k in range(len(j)):\n                i = int(j[k])\n"),
+     "index loop over range(len(j)), int()"),
+    ("C16", "neutral", [], U, "            for i in j:\n                curext.mincase[i] = maxcase[i]\n",
+     "            for i, label in zip(j, [maxcase[k] for k in j]):\n                curext.mincase[i] = label\n", "zip of the rows and their labels"),
+    ("C16", "neutral", [], U, "        for i in j:\n            curext.maxcase[i] = maxcase[i]\n        curext.ext[j, 0] = mm.ext[j, 0]\n",
+     "        k = 0\n        while k < j.size:\n            curext.maxcase[j[k]] = maxcase[j[k]]\n            k += 1\n        curext.ext[j, 0] = mm.ext[j, 0]\n",
+     "counted while loop"),
+    ("C16", "neutral", [], U, _BLK2MIN_LOOP, "        for k, i in enumerate(j):\n            curext.mincase[i] = mincase[j[k]]\n", "enumerate, label through the position"),
+    ("C16", "break", ["C16-R1"], U, "            for i in j:\n                curext.mincase[i] = maxcase[i]\n",
+     "            for i, label in zip(j, maxcase):\n                curext.mincase[i] = label\n", "labels taken by position in j, not by row"),
+    ("C16", "break", ["C16-R1"], U, _BLK2MIN_LOOP, "        for k, i in enumerate(j):\n            curext.mincase[i] = mincase[k]\n", "label indexed by the position in j"),
+    # select for masked store
+    ("C16", "neutral", [], U, _BLK2MAX,
+     "    pv = nan_argmax(curext.ext[:, 0], mm.ext[:, 0])\n    j = pv.nonzero()[0]\n    if pv.any():\n        for i in j:\n            curext.maxcase[i] = maxcase[i]\n"
+     "        curext.ext[:, 0] = np.where(pv, mm.ext[:, 0], curext.ext[:, 0])\n        _put_time(curext, mm, j, 0, 0)\n", "np.where select over the whole column for the masked store"),
+    ("C16", "break", ["C16-R1"], U, _BLK2MAX,
+     "    pv = nan_argmax(curext.ext[:, 0], mm.ext[:, 0])\n    j = pv.nonzero()[0]\n    if pv.any():\n        for i in j:\n            curext.maxcase[i] = maxcase[i]\n"
+     "        curext.ext[:, 0] = np.where(pv, mm.ext[:, 1], curext.ext[:, 0])\n        _put_time(curext, mm, j, 0, 0)\n", "select takes the new maximum from the min column"),
+    # match statements
+    ("C16", "neutral", [], U, "    if c not in [1, 2]:\n        raise ValueError(f\"mm.ext has {c} cols, but must have 1 or 2.\")\n",
+     "    match c:\n        case 1 | 2:\n            pass\n        case _:\n            raise ValueError(f\"mm.ext has {c} cols, but must have 1 or 2.\")\n", "match statement for the column count"),
+    ("C16", "neutral", [], R, _ENV, "            match bool(first):\n                case True:\n                    res.srs.ext[q] = srs_cur\n                case False:\n"
+     "                    res.srs.ext[q] = np.fmax(res.srs.ext[q], srs_cur)\n", "match on the first-case flag"),
+    ("C16", "break", ["C16-R3"], R, _ENV, "            match bool(first):\n                case False:\n                    res.srs.ext[q] = srs_cur\n                case True:\n"
+     "                    res.srs.ext[q] = np.fmax(res.srs.ext[q], srs_cur)\n", "match on the first-case flag with the arms exchanged"),
+    ("C16", "neutral", [], E, "    if nrb > 0:\n        solout.a[:nrb] *= ruf * suf\n        solout.v[:nrb] *= ruf * suf\n",
+     "    if 0 < nrb:\n        solout.a[:nrb] = solout.a[:nrb] * (ruf * suf)\n        solout.v[:nrb] = solout.v[:nrb] * (ruf * suf)\n", "explicit load-multiply-store for `*=`"),
+    ("C16", "neutral", [], R, "    def _store_maxmin(self, res, mm, j, case):", "    @staticmethod\n    def _store_maxmin(res, mm, j, case):", "_store_maxmin as a staticmethod"),
+]
